@@ -28,6 +28,7 @@ const shardID = 1
 // Cfg is the per run (swarm) configuration, drawn from the head of the tape.
 type Cfg struct {
 	Hosts        int
+	Voters       int // initial voting members (the other hosts may be added later)
 	NonVoting    int // how many of the hosts start as non-voting (joined later)
 	SMKind       int
 	Steps        int
@@ -79,8 +80,13 @@ type Host struct {
 	sm           *SMInst
 	ticks        int64
 	stopped      bool // shard stopped gracefully (NodeHost still up)
+	started      bool // StartReplica was called in this incarnation
 	joined       bool // member of the shard (initial or added)
+	initial      bool // initial member
 	removed      bool
+	role         int  // current role as far as the harness knows
+	joinRole     int  // role it was first added with: what its config must say
+	addIssued    bool // an add request for it is outstanding or of unknown outcome
 }
 
 // Sim is one simulated run.
@@ -99,6 +105,7 @@ type Sim struct {
 	ticks   int64
 	faultsOn bool
 	pendingAsync []asyncJob
+	admin   []*adminReq
 	orc   *oracles
 	initialMembers map[uint64]dragonboat.Target
 	nextWID uint64
@@ -125,6 +132,7 @@ func drawCfg(ctx *runner.Ctx) Cfg {
 	}
 	c := Cfg{}
 	c.Hosts = p("hosts", pick(s, 3, 3, 3, 1, 2, 4, 5))
+	c.Voters = p("voters", 0)
 	c.SMKind = p("sm", pick(s, KindRegular, KindConcurrent, KindOnDisk))
 	c.Steps = p("steps", pick(s, 600, 300, 1200, 2500))
 	c.Clients = p("clients", pick(s, 2, 1, 3, 4))
@@ -170,12 +178,18 @@ func drawCfg(ctx *runner.Ctx) Cfg {
 	if c.Hosts > 5 {
 		c.Hosts = 5
 	}
+	if c.Voters <= 0 || c.Voters > c.Hosts {
+		c.Voters = c.Hosts
+		if c.PMembership > 0 && c.Hosts > 1 {
+			c.Voters = 1 + s.Intn(c.Hosts)
+		}
+	}
 	return c
 }
 
 func (c Cfg) String() string {
-	return fmt.Sprintf("hosts=%d sm=%d steps=%d clients=%d keys=%d tick=%d/%d el=%d hb=%d cq=%t pv=%t qs=%t nc=%t snap=%d ovh=%d cmp=%t occ=%t inmem=%d drop=%d dup=%d reord=%d part=%d crash=%d stop=%d xfer=%d snapreq=%d memb=%d fsy=%d smy=%d torn=%t sess=%t",
-		c.Hosts, c.SMKind, c.Steps, c.Clients, c.Keys, c.TickNum, c.TickDen, c.ElectionRTT, c.HeartbeatRTT,
+	return fmt.Sprintf("hosts=%d/%d sm=%d steps=%d clients=%d keys=%d tick=%d/%d el=%d hb=%d cq=%t pv=%t qs=%t nc=%t snap=%d ovh=%d cmp=%t occ=%t inmem=%d drop=%d dup=%d reord=%d part=%d crash=%d stop=%d xfer=%d snapreq=%d memb=%d fsy=%d smy=%d torn=%t sess=%t",
+		c.Hosts, c.Voters, c.SMKind, c.Steps, c.Clients, c.Keys, c.TickNum, c.TickDen, c.ElectionRTT, c.HeartbeatRTT,
 		c.CheckQuorum, c.PreVote, c.Quiesce, c.NotifyCommit, c.SnapshotEntries, c.CompactionOverhead, c.Compress,
 		c.OrderedCC, c.MaxInMem, c.PDrop, c.PDup, c.PReorder, c.PPartition, c.PCrash, c.PStop, c.PLeaderTransfer,
 		c.PSnapshotReq, c.PMembership, c.FSYield, c.SMYield, c.TornTail, c.Sessions)
@@ -232,6 +246,15 @@ func (s *Sim) raftConfig(h *Host) config.Config {
 		OrderedConfigChange: s.cfg.OrderedCC,
 		MaxInMemLogSize:     s.cfg.MaxInMem,
 	}
+	if !h.initial {
+		switch h.joinRole {
+		case roleNonVoting:
+			c.IsNonVoting = true
+		case roleWitness:
+			c.IsWitness = true
+			c.SnapshotEntries = 0
+		}
+	}
 	if s.cfg.Compress {
 		c.SnapshotCompressionType = config.Snappy
 		c.EntryCompressionType = config.Snappy
@@ -264,26 +287,42 @@ func (s *Sim) boot(h *Host) {
 	h.drv = dragonboat.VerifNewDriver(nh)
 	h.tr = nh.VerifTransport()
 	s.trToHost[h.tr] = h.id
-	s.startReplica(h)
+	h.started = false
+	if h.joined && !h.removed {
+		s.startReplica(h)
+	}
 	h.up = true
 	h.booting = false
 }
 
 func (s *Sim) startReplica(h *Host) {
+	if !s.tryStartReplica(h) {
+		panic("StartReplica failed")
+	}
+}
+
+// tryStartReplica starts the replica; false when the previous instance of the
+// node is still being unloaded (ErrShardAlreadyExist).
+func (s *Sim) tryStartReplica(h *Host) bool {
 	cfg := s.raftConfig(h)
 	var err error
 	members := s.initialMembers
 	join := false
-	if _, ok := members[h.replicaID]; !ok {
+	if !h.initial {
 		members = nil
 		join = true
 	}
-	switch s.cfg.SMKind {
-	case KindRegular:
+	switch {
+	case h.joinRole == roleWitness && !h.initial:
+		// a witness has no user state machine worth the name
 		err = h.nh.StartReplica(members, join, func(uint64, uint64) sm.IStateMachine {
 			return &regularSM{i: s.newSMInst(h)}
 		}, cfg)
-	case KindConcurrent:
+	case s.cfg.SMKind == KindRegular:
+		err = h.nh.StartReplica(members, join, func(uint64, uint64) sm.IStateMachine {
+			return &regularSM{i: s.newSMInst(h)}
+		}, cfg)
+	case s.cfg.SMKind == KindConcurrent:
 		err = h.nh.StartConcurrentReplica(members, join, func(uint64, uint64) sm.IConcurrentStateMachine {
 			return &concurrentSM{i: s.newSMInst(h)}
 		}, cfg)
@@ -292,9 +331,19 @@ func (s *Sim) startReplica(h *Host) {
 			return &diskSM{i: s.newSMInst(h)}
 		}, cfg)
 	}
+	if err == dragonboat.ErrShardAlreadyExist {
+		s.ctx.Count("probe.start_while_unloading", 1)
+		return false
+	}
+	if err == dragonboat.ErrReplicaRemoved {
+		h.removed = true
+		return true
+	}
 	if err != nil {
 		panic(fmt.Sprintf("StartReplica failed: %v", err))
 	}
+	h.started = true
+	return true
 }
 
 // ---- hooks from the transport ----
@@ -394,8 +443,11 @@ func Run(ctx *runner.Ctx) *runner.Result {
 		h.disk = simfs.NewDisk(h.addr, s)
 		s.hosts = append(s.hosts, h)
 		s.addrToHost[h.addr] = i
-		s.initialMembers[h.replicaID] = h.addr
-		h.joined = true
+		if i < s.cfg.Voters {
+			s.initialMembers[h.replicaID] = h.addr
+			h.joined = true
+			h.initial = true
+		}
 	}
 	for i := 0; i < s.cfg.Clients; i++ {
 		s.clients = append(s.clients, &Client{id: i, sim: s})
@@ -658,6 +710,7 @@ func (s *Sim) afterStep() {
 	for _, c := range s.clients {
 		c.poll()
 	}
+	s.pollAdmin()
 	s.orc.afterStep()
 }
 
@@ -719,6 +772,7 @@ func (s *Sim) maybeFaults() {
 			s.crashHost(h, false)
 		}
 	}
+	s.maybeAdmin()
 	if src.Chance(c.PRestart, 1000) {
 		for _, h := range s.hosts {
 			if !h.up && !h.booting && !h.removed {
@@ -826,16 +880,51 @@ func (s *Sim) finalPhase() {
 			s.restartHost(h)
 		}
 	}
+	for _, h := range s.hosts {
+		if h.up && h.stopped && h.joined && !h.removed {
+			s.restartShard(h)
+		}
+	}
+	// bound chosen by us, generously: 60 election timeouts of fair fault-free
+	// running for a leader to emerge, then as many again for the final requests
+	budget := int(s.cfg.ElectionRTT) * 60
+	s.ctx.Ev("final")
+	if !s.quorumPossible() {
+		// no majority of the voting members can run: nothing is required to
+		// complete, but nothing may hang either (checked by the deadline oracle)
+		s.ctx.Count("probe.final_without_quorum", 1)
+		s.fairRounds(int(s.cfg.TimeoutTicks)+300, func() bool { return s.noClientWaiting() })
+		return
+	}
+	if !s.fairRounds(budget, func() bool { return s.orc.stableLeader() }) {
+		if !s.ctx.Violated() {
+			s.orc.livenessFailed("no leader")
+		}
+		return
+	}
+	s.ctx.Count("probe.final_leader", 1)
 	for _, c := range s.clients {
 		c.beginFinal()
 	}
-	budget := int(s.cfg.ElectionRTT) * 60
-	s.ctx.Ev("final")
+	if !s.fairRounds(budget, s.finalDone) {
+		if !s.ctx.Violated() {
+			s.orc.livenessFailed("requests / catch-up")
+		}
+		return
+	}
+	s.ctx.Count("probe.final_converged", 1)
+}
+
+// fairRounds runs the fair schedule: every live host ticks once per round and
+// all pending work is drained in FIFO order, until done() or the budget ends.
+func (s *Sim) fairRounds(budget int, done func() bool) bool {
 	for round := 0; round < budget && !s.ctx.Violated(); round++ {
 		for _, h := range s.upHosts() {
 			s.tickHost(h)
+			if h.stopped && h.joined && !h.removed && h.busy["boot"] == nil {
+				s.restartShard(h)
+			}
 		}
-		// drain all work in FIFO order
 		for guard := 0; guard < 5000 && !s.ctx.Violated(); guard++ {
 			opts := s.options(guard == 0)
 			if len(opts) == 0 {
@@ -845,14 +934,41 @@ func (s *Sim) finalPhase() {
 			s.afterStep()
 		}
 		s.afterStep()
-		if s.finalDone() {
-			s.ctx.Count("probe.final_converged", 1)
-			return
+		if done() {
+			return true
 		}
 	}
-	if !s.ctx.Violated() {
-		s.orc.livenessFailed()
+	return false
+}
+
+func (s *Sim) noClientWaiting() bool {
+	for _, c := range s.clients {
+		if c.phase != 0 {
+			return false
+		}
 	}
+	return len(s.admin) == 0
+}
+
+// quorumPossible: a majority of the voting members (and witnesses) of the
+// newest applied membership is not removed, i.e. can run in the final phase.
+func (s *Sim) quorumPossible() bool {
+	v := s.orc.latest
+	if v == nil {
+		return true
+	}
+	total, alive := 0, 0
+	for _, m := range []map[uint64]string{v.voters, v.witnesses} {
+		for id := range m {
+			total++
+			for _, h := range s.hosts {
+				if h.replicaID == id && !h.removed {
+					alive++
+				}
+			}
+		}
+	}
+	return alive >= total/2+1
 }
 
 func (s *Sim) finalDone() bool {
